@@ -861,9 +861,10 @@ func runLateJoin(c *mon.Case, sp spec) {
 type countingProto struct {
 	mangos.ProtocolBase
 	c    *mon.Case
-	n    atomic.Int64
-	max  atomic.Int64
-	adds atomic.Int64
+	n       atomic.Int64
+	max     atomic.Int64
+	adds    atomic.Int64
+	removed atomic.Int64 // RemovePipe calls that have returned (the protocol has let the peer go)
 }
 
 func (w *countingProto) AddPipe(p mangos.ProtocolPipe) error {
@@ -880,6 +881,7 @@ func (w *countingProto) AddPipe(p mangos.ProtocolPipe) error {
 func (w *countingProto) RemovePipe(p mangos.ProtocolPipe) {
 	w.n.Add(-1)
 	w.ProtocolBase.RemovePipe(p)
+	w.removed.Add(1)
 }
 
 var pairProtos = map[string]func() mangos.ProtocolBase{
@@ -930,7 +932,7 @@ func runRace(c *mon.Case, sp spec) {
 		for i := 0; i < 2; i++ {
 			ps[i].Drop()
 		}
-		if !c.AwaitOrViolate("pair/first-peer-not-released", "dropped peers being released", func() bool { return w.n.Load() == 0 && ps[0].LibClosed() && ps[1].LibClosed() }, mon.AwaitOpts{}) {
+		if !c.AwaitOrViolate("pair/first-peer-not-released", "dropped peers being released", func() bool { return w.removed.Load() == w.adds.Load() && ps[0].LibClosed() && ps[1].LibClosed() }, mon.AwaitOpts{}) {
 			return
 		}
 	}
